@@ -27,8 +27,25 @@ pub(crate) fn escape_html_quote(s: &str) -> Cow<'_, str> {
     })
 }
 
+/// Generate a double-quoted string literal which is valid in both JavaScript and WXML expressions.
 pub(crate) fn gen_lit_str(s: &str) -> String {
-    format!("{:?}", s)
+    let mut ret = String::with_capacity(s.len() + 2);
+    ret.push('"');
+    for c in s.chars() {
+        match c {
+            '"' => ret.push_str(r#"\""#),
+            '\\' => ret.push_str(r"\\"),
+            '\n' => ret.push_str(r"\n"),
+            '\r' => ret.push_str(r"\r"),
+            '\t' => ret.push_str(r"\t"),
+            '\0'..='\x1f' | '\x7f' | '\u{2028}' | '\u{2029}' => {
+                ret.push_str(&format!("\\u{:04X}", c as u32));
+            }
+            _ => ret.push(c),
+        }
+    }
+    ret.push('"');
+    ret
 }
 
 pub(crate) fn dash_to_camel(s: &str) -> CompactString {
